@@ -4,6 +4,7 @@
 //! applies as the splice.
 use hv::common::*;
 use hv::frontends;
+use hv::gen;
 use harper_core::linting::{LintGroup, Linter, Suggestion};
 use harper_core::{Dialect, FstDictionary, Span};
 use serde_json::{json, Value};
@@ -196,6 +197,28 @@ pub fn run(a: &Args, corpus: &[Value]) {
             }
         }
         rep.extra.insert("exhaustive_triples_len_le6_over_ab".into(), json!(n));
+    }
+    // every special construct at the very start, alone, and at the very end of a text (no terminator):
+    // spans computed with an offset only leave the text there
+    group.set_all_rules_to(Some(true));
+    let constructs: Vec<&str> = gen::TRIGGERS.iter().chain(gen::NUMBERS).chain(gen::ABBREV).chain(gen::MISSPELT).chain(gen::CONTRACTIONS).copied().collect();
+    for (i, c) in constructs.iter().enumerate() {
+        if !a.thorough() && i % 2 == (a.seed % 2) as usize && i >= gen::TRIGGERS.len() {
+            continue;
+        }
+        let clean = gen::clean_sentence(&mut r);
+        let clean_open = clean.trim_end_matches('.').to_string();
+        for text in [c.to_string(), format!("{clean_open} {c}"), format!("{c} {}", clean.to_lowercase()), format!("{clean} {}", gen::capitalize(c)), format!("é𝒜 {c}")] {
+            check_document(&mut rep, "plain", &text, &mut group, &dict, "all");
+        }
+        let fe = ["markdown", "c:rust", "c:python", "html", "typst", "lhaskell", "gitcommit", "c:java", "c:go"][i % 9];
+        let text = match fe {
+            "c:rust" | "c:java" | "c:go" => format!("// {clean_open} {c}"),
+            "c:python" => format!("# {clean_open} {c}"),
+            "html" => format!("<p>{clean_open} {c}</p>"),
+            _ => format!("{clean_open} {c}"),
+        };
+        check_document(&mut rep, fe, &text, &mut group, &dict, "all");
     }
     // documents in every front-end
     let mut fes = frontends::base_frontends();
